@@ -321,6 +321,8 @@ def foreign_variants(spec: dict) -> list[tuple[str, dict]]:
         for lab, dx in (("filter_kwargs", 2), ("filter_kwargs-", -1)):     # same filter NAMES, other arguments (stricter / laxer)
             f0 = dict(spec["applied_filters"][0]); f0["kwargs"] = {k: (max(0, x + dx) if isinstance(x, int) else x) for k, x in f0["kwargs"].items()}
             v(lab, applied_filters=[f0] + list(spec["applied_filters"][1:]))
+    if spec.get("applied_filters"):
+        v("filters-", applied_filters=list(spec["applied_filters"][1:]))      # the file's config LACKS a filter the request has
     # the REQUEST has a key the file's config lacks (a comparison that only walks the stored side misses it)
     for fld in ("maze_ctor_kwargs", "endpoint_kwargs"):
         if spec.get(fld):
